@@ -270,3 +270,27 @@ func SortedKeys[V any](m map[string]V) []string {
 	sort.Strings(keys)
 	return keys
 }
+
+// Reinit builds a fresh engine from the same files (Go randomises the map iteration that decides
+// the load order of flows, so every Reinit may realise another load order).
+func (e *StreamEnv) Reinit() error {
+	os.Setenv("LUNAR_PROXY_FLOW_DIRECTORY", e.FlowsDir)
+	os.Setenv("LUNAR_PROXY_QUOTAS_DIRECTORY", e.QuotasDir)
+	base := filepath.Dir(e.FlowsDir)
+	os.Setenv("LUNAR_FLOWS_PATH_PARAM_DIR", filepath.Join(base, "path_params"))
+	os.Setenv("LUNAR_FLOWS_PATH_PARAM_CONFIG", filepath.Join(base, "policies.yaml"))
+	st, err := streams.NewStream()
+	if err != nil {
+		return err
+	}
+	if err := st.Initialize(); err != nil {
+		return err
+	}
+	e.Stream = st
+	return nil
+}
+
+// Cleanup removes the configuration directory of this environment.
+func (e *StreamEnv) Cleanup() {
+	_ = os.RemoveAll(filepath.Dir(e.FlowsDir))
+}
